@@ -182,6 +182,27 @@ pub fn check_isolated(rc: &RunCtx, source: &str, probe: Option<&str>, macro_prof
     msgs
 }
 
+/// Isolated check of one documented declaration inside a crate with the given crate-level regime.
+pub fn check_isolated_opts(rc: &RunCtx, source: &str, no_std: bool, deny_docs: bool) -> Vec<String> {
+    let dir: PathBuf = rc.work.join("iso-regime");
+    let src = format!("//! generated module\n#![allow(unused_imports)]\nuse arbitrary_int::*;\n{}", source);
+    write_v_crate(&dir, &format!("vcrate_{}_isor", rc.prop.to_lowercase()), &[("d0".to_string(), src)], no_std, deny_docs);
+    let out = cargo(&dir, None, &check_args("dev"), "gen", &[]);
+    if is_macro_broken(&out) {
+        inconclusive(&format!("the bitbybit crate does not build from /repo: {}", cargo::tail(&out.stderr, 5)));
+    }
+    if out.success {
+        return vec![];
+    }
+    let (by_mod, un) = cargo::attribute(&out.diags);
+    let mut msgs: Vec<String> = by_mod.into_iter().flat_map(|(_, v)| v.into_iter().map(|(l, t)| format!("line {}: {}", l, t))).collect();
+    msgs.extend(un);
+    if msgs.is_empty() {
+        msgs.push(cargo::tail(&out.stderr, 3));
+    }
+    msgs
+}
+
 pub fn warm(rc: &RunCtx) {
     let items = vec![(0usize, "#[bitbybit::bitfield(u8)]\npub struct S {\n    #[bits(0..=3, rw)]\n    a: u4,\n}\n".to_string())];
     for mp in ["dev", "release"] {
@@ -208,6 +229,7 @@ pub fn replay(rc: &RunCtx, kind: &str, doc: &Value, path: &str) -> ! {
             println!("REPLAY-PASS property={} file={} (the recorded case no longer fails)", prop, path);
             std::process::exit(0);
         }
+        "regime" | "expansion" => crate::c18::replay(rc, doc, path),
         other => inconclusive(&format!("unknown replay kind {}", other)),
     }
 }
